@@ -1021,4 +1021,353 @@ theorem tickBuckets_facts (k oldest w : Nat) (ok : Bool) (l : List Bucket) (acc 
       · intro t ht; apply t4; split <;> simp [ht]
       · intro t ht; apply t5; simp [ht]
 
+theorem sinv_tick {s : State} (r now : Nat) (ok : Bool) (h : SInv s []) : SInv (step s (.tick r now ok)).1 [] := by
+  simp only [step, stepTick]
+  cases hg : s.aggs[r]? with
+  | none => exact h
+  | some g =>
+    simp only
+    split
+    · exact h
+    · have hgm : g ∈ s.aggs := List.mem_of_getElem? hg
+      have hgb := h.bucket g hgm
+      have hadv : ∀ x, x ∈ (advance g.recent now s.shortWindow).1 ∨ x ∈ (advance g.recent now s.shortWindow).2 →
+          (x ∈ g.recent ∨ x.reqs = []) := fun x hx => advance_mem hx
+      generalize advance g.recent now s.shortWindow = adv at hadv ⊢
+      have hBIr : ∀ x ∈ adv.1, BI x := by
+        intro x hx p hp
+        rcases hadv x (Or.inl hx) with h1 | h1
+        · exact hgb x (by simp [h1]) p hp
+        · rw [h1] at hp; simp at hp
+      have hBIh : ∀ x ∈ g.historic, BI x := fun x hx p hp => hgb x (by simp [hx]) p hp
+      have tf := tickBuckets_facts r (match adv.2.head? with | some b => b.time | none => 0) s.aggWindow ok adv.1
+        { historic := g.historic, resps := [], inserted := [], rejected := [], evs := [] } hBIr hBIh
+      generalize tickBuckets r (match adv.2.head? with | some b => b.time | none => 0) s.aggWindow ok adv.1
+        { historic := g.historic, resps := [], inserted := [], rejected := [], evs := [] } = acc at tf ⊢
+      obtain ⟨t1, t2, t3, _, _⟩ := tf
+      simp only [List.not_mem_nil, false_or] at t1 t2 t3
+      have hsrc : ∀ x ∈ adv.1 ++ g.historic, ∀ p ∈ x.reqs, p ∈ ridTags s := by
+        intro x hx p hp
+        have : x ∈ g.recent ++ g.historic := by
+          simp only [List.mem_append] at hx ⊢
+          rcases hx with hx | hx
+          · rcases hadv x (Or.inl hx) with h1 | h1
+            · exact Or.inl h1
+            · rw [h1] at hp; simp at hp
+          · exact Or.inr hx
+        simp only [ridTags, parked, List.mem_append, List.mem_flatMap]
+        exact Or.inr ⟨g, hgm, x, by simpa using this, hp⟩
+      have hnewg : ∀ y ∈ adv.2 ++ acc.historic, (y ∈ g.recent ++ g.historic) ∨ y.reqs = [] := by
+        intro y hy
+        simp only [List.mem_append] at hy ⊢
+        rcases hy with hy | hy
+        · rcases hadv y (Or.inr hy) with h1 | h1
+          · exact Or.inl (Or.inl h1)
+          · exact Or.inr h1
+        · exact Or.inl (Or.inr (t1 y hy))
+      refine h.step (fun t ht => ?_) (fun hA => Keeps.refl hA) (Nat.le_refl _) ⟨0, ?_⟩ ?_ ?_ (fun t ht => Or.inl ht)
+      · simp only [P, setAgg, List.mem_append] at ht ⊢
+        rcases ht with ht | ht
+        · exact Or.inl (Or.inl ht)
+        · exact Or.inr (Or.inl ht)
+      · intro p hp; left
+        simp only [ridTags, List.mem_append] at hp
+        rcases hp with ((hp | hp) | hp) | hp
+        · simp only [ridTags, List.mem_append]; exact Or.inl (Or.inl (Or.inl hp))
+        · simp only [ridTags, List.mem_append]; exact Or.inl (Or.inl (Or.inr hp))
+        · simp only [setAgg, List.map_append, List.mem_append, List.mem_map] at hp
+          rcases hp with hp | ⟨a, ha, rfl⟩
+          · simp only [ridTags, List.mem_append, List.mem_map]; exact Or.inl (Or.inr hp)
+          · obtain ⟨x, hx, hpx⟩ := t2 a ha
+            exact hsrc x hx _ hpx
+        · have hp' : p ∈ parked (setAgg s r { g with recent := adv.2, historic := acc.historic }) := hp
+          rcases mem_parked_setAgg hp' with hp' | hp'
+          · simp only [ridTags, List.mem_append]; exact Or.inr hp'
+          · simp only [List.mem_flatMap] at hp'
+            obtain ⟨y, hy, hpy⟩ := hp'
+            rcases hnewg y hy with h1 | h1
+            · simp only [ridTags, parked, List.mem_append, List.mem_flatMap]
+              exact Or.inr ⟨g, hgm, y, by simpa using h1, hpy⟩
+            · rw [h1] at hpy; simp at hpy
+      · intro a ha
+        simp only [setAgg, List.mem_append] at ha
+        rcases ha with ha | ha
+        · exact Or.inl ha
+        · right; intro hd he
+          simp only [P, setAgg, List.mem_append]
+          rcases t3 a ha hd he with h1 | h1
+          · exact Or.inl (Or.inr h1)
+          · exact Or.inr (Or.inr h1)
+      · refine bucket_setAgg (s := s) (g := { g with recent := adv.2, historic := acc.historic }) h.bucket ?_
+        intro y hy p hp
+        rcases hnewg y hy with h1 | h1
+        · exact hgb y h1 p hp
+        · rw [h1] at hp; simp at hp
+
+/-- g' has the buckets of g with possibly fewer contributors (CancelLongpoll) -/
+def AggSub (g' g : Agg) : Prop :=
+  ∀ b' ∈ g'.recent ++ g'.historic, ∃ b ∈ g.recent ++ g.historic, b'.secs = b.secs ∧ ∀ p ∈ b'.reqs, p ∈ b.reqs
+
+theorem AggSub.rfl' (g : Agg) : AggSub g g := fun b hb => ⟨b, hb, rfl, fun _ hp => hp⟩
+
+theorem AggSub.trans' {g1 g2 g3 : Agg} (h12 : AggSub g1 g2) (h23 : AggSub g2 g3) : AggSub g1 g3 := by
+  intro b1 hb1
+  obtain ⟨b2, hb2, hs2, hr2⟩ := h12 b1 hb1
+  obtain ⟨b3, hb3, hs3, hr3⟩ := h23 b2 hb2
+  exact ⟨b3, hb3, hs2.trans hs3, fun p hp => hr3 p (hr2 p hp)⟩
+
+theorem aggSub_unpark (g : Agg) (rid : Nat) : AggSub (unpark g rid) g := by
+  intro b' hb'
+  simp only [unpark, List.mem_append, List.mem_map] at hb'
+  rcases hb' with ⟨b, hb, rfl⟩ | ⟨b, hb, rfl⟩
+  · exact ⟨b, by simp [hb], rfl, fun p hp => mem_unpark_reqs hp⟩
+  · exact ⟨b, by simp [hb], rfl, fun p hp => mem_unpark_reqs hp⟩
+
+theorem aggSub_foldl (rids : List Nat) (g : Agg) : AggSub (rids.foldl unpark g) g := by
+  induction rids generalizing g with
+  | nil => exact AggSub.rfl' g
+  | cons r rs ih => exact (ih (unpark g r)).trans' (aggSub_unpark g r)
+
+theorem parked_map_sub {aggs : List Agg} {F : Agg → Agg} (hF : ∀ g, AggSub (F g) g) {p : Nat × Nat}
+    (h : p ∈ (aggs.map F).flatMap (fun g => (g.recent ++ g.historic).flatMap (·.reqs))) :
+    p ∈ aggs.flatMap (fun g => (g.recent ++ g.historic).flatMap (·.reqs)) := by
+  simp only [List.mem_flatMap, List.mem_map] at h ⊢
+  obtain ⟨g', ⟨g, hg, rfl⟩, b', hb', hp⟩ := h
+  obtain ⟨b, hb, _, hr⟩ := hF g b' hb'
+  exact ⟨g, hg, b, hb, hr p hp⟩
+
+theorem bucket_map_sub {aggs : List Agg} {F : Agg → Agg} (hF : ∀ g, AggSub (F g) g)
+    (h : ∀ g ∈ aggs, ∀ b ∈ g.recent ++ g.historic, ∀ p ∈ b.reqs, p.2 ∈ b.secs) :
+    ∀ g ∈ aggs.map F, ∀ b ∈ g.recent ++ g.historic, ∀ p ∈ b.reqs, p.2 ∈ b.secs := by
+  intro g' hg' b' hb' p hp
+  simp only [List.mem_map] at hg'
+  obtain ⟨g, hg, rfl⟩ := hg'
+  obtain ⟨b, hb, hs, hr⟩ := hF g b' hb'
+  rw [hs]; exact h g hg b hb p (hr p hp)
+
+theorem flushFlights_facts (fs : List Flight) (a : Agent) :
+    (∀ r ∈ a.recs, r ∈ (flushFlights fs a).recs) ∧
+    (flushFlights fs a).dropped = a.dropped ∧ (flushFlights fs a).lostMem = a.lostMem ∧
+    (∀ f ∈ fs, f.historic = false → f.cbd.id = 0 → a.disk = true → a.diskOk = true →
+        ∃ r ∈ (flushFlights fs a).recs, r.sec = f.cbd.sec) := by
+  induction fs generalizing a with
+  | nil => simp [flushFlights]
+  | cons f fs ih =>
+    unfold flushFlights
+    by_cases hh : f.historic = true
+    · simp only [hh, if_true]
+      obtain ⟨i1, i2, i3, i4⟩ := ih a
+      refine ⟨i1, i2, i3, ?_⟩
+      intro f' hf' hn
+      simp only [List.mem_cons] at hf'
+      rcases hf' with rfl | hf'
+      · simp [hh] at hn
+      · exact i4 f' hf' hn
+    · simp only [hh, Bool.false_eq_true, if_false]
+      obtain ⟨i1, i2, i3, i4⟩ := ih (diskPut a f.cbd).1
+      have hput : (∀ r ∈ a.recs, r ∈ (diskPut a f.cbd).1.recs) ∧ (diskPut a f.cbd).1.disk = a.disk ∧
+          (diskPut a f.cbd).1.diskOk = a.diskOk ∧
+          (f.cbd.id = 0 → a.disk = true → a.diskOk = true → ∃ r ∈ (diskPut a f.cbd).1.recs, r.sec = f.cbd.sec) := by
+        unfold diskPut canPut
+        split
+        · refine ⟨fun r hr => by simp [hr], rfl, rfl, fun _ _ _ => ⟨⟨f.cbd.sec, a.lastId + 1⟩, by simp, rfl⟩⟩
+        · rename_i hc
+          refine ⟨fun r hr => hr, rfl, rfl, fun h0 hd ho => ?_⟩
+          simp [h0, hd, ho] at hc
+      have fr := diskPut_frame a f.cbd
+      refine ⟨fun r hr => i1 r (hput.1 r hr), by rw [i2, fr.2.2.1], by rw [i3, fr.2.2.2.1], ?_⟩
+      intro f' hf' hn h0 hd ho
+      simp only [List.mem_cons] at hf'
+      rcases hf' with rfl | hf'
+      · obtain ⟨r, hr, hs⟩ := hput.2.2.2 h0 hd ho
+        exact ⟨r, i1 r hr, hs⟩
+      · exact i4 f' hf' hn h0 (by rw [hput.2.1]; exact hd) (by rw [hput.2.2.1]; exact ho)
+
+theorem readN_flights (n : Nat) (a : Agent) : (readN n a).flights = a.flights := by
+  induction n generalizing a with
+  | zero => rfl
+  | succ n ih => unfold readN; rw [ih, readNext_flights]
+
+theorem mem_resetIds {l : List Rec} {r : Rec} (h : r ∈ l) : ⟨r.sec, 0⟩ ∈ resetIds l := by
+  simp only [resetIds, List.mem_map]; exact ⟨r, h, rfl⟩
+
+set_option maxRecDepth 4000 in
+theorem sinv_agentRestart {s : State} (crash : Bool) (h : SInv s []) : SInv (step s (.agentRestart crash)).1 [] := by
+  simp only [step, stepAgentRestart]
+  generalize hb : (if crash = true then s.ag else flushFlights s.ag.flights s.ag) = b
+  have hbf : (∀ r ∈ s.ag.recs, r ∈ b.recs) ∧ b.dropped = s.ag.dropped ∧ b.lostMem = s.ag.lostMem ∧
+      (crash = false → ∀ f ∈ s.ag.flights, f.historic = false → f.cbd.id = 0 → s.ag.disk = true → s.ag.diskOk = true →
+        ∃ r ∈ b.recs, r.sec = f.cbd.sec) := by
+    rw [← hb]; cases crash
+    · simp only [Bool.false_eq_true, if_false]
+      have := flushFlights_facts s.ag.flights s.ag
+      exact ⟨this.1, this.2.1, this.2.2.1, fun _ => this.2.2.2⟩
+    · simp
+  refine h.step (fun t ht => ht) ?_ (Nat.le_refl _) ⟨0, ?_⟩ (fun a ha => Or.inl (List.mem_filter.mp ha).1)
+    (bucket_map_sub (fun g => aggSub_foldl _ g) h.bucket) (fun t ht => Or.inl ht)
+  · intro hA
+    refine Keeps.trans (a1 := restarted b (memOnly s.ag (!crash))) (x1 := []) ?_ (fun h' => keeps_readN startupReads h')
+    constructor
+    · unfold restarted
+      refine ⟨?_, ?_, ?_, ?_, ?_, ?_⟩
+      · intro r hr; simp only [resetIds, List.mem_map] at hr; obtain ⟨r0, _, rfl⟩ := hr; simp
+      · intro c hc; simp [cbds] at hc
+      · intro r1 hr1 r2 _ _ hne; simp only [resetIds, List.mem_map] at hr1; obtain ⟨r0, _, rfl⟩ := hr1; simp at hne
+      · intro c hc; simp [cbds] at hc
+      · intro c hc; simp [cbds] at hc
+      · intro c hc; simp [cbds] at hc
+    · intro t ht
+      obtain ⟨h1, h2, h3, h4, h5, h6⟩ := hA
+      have hR : ∀ l, (restarted b l).recs = resetIds b.recs ∧ (restarted b l).dropped = b.dropped ∧ (restarted b l).lostMem = b.lostMem ++ l := fun l => ⟨rfl, rfl, rfl⟩
+      have hrec : ∀ r ∈ s.ag.recs, safeX (P s) (restarted b (memOnly s.ag (!crash))) [] r.sec := by
+        intro r hr; left; right; rw [mem_heldSecs]; right; right
+        exact ⟨⟨r.sec, 0⟩, by rw [(hR _).1]; exact mem_resetIds (hbf.1 r hr), rfl⟩
+      have hacc : ∀ u, accA (P s) s.ag u → safeX (P s) (restarted b (memOnly s.ag (!crash))) [] u := by
+        intro u hu; right
+        rcases hu with hu | hu | hu
+        · exact Or.inl hu
+        · exact Or.inr (Or.inl (by rw [(hR _).2.1, hbf.2.1]; exact hu))
+        · exact Or.inr (Or.inr (by rw [(hR _).2.2, List.mem_append, hbf.2.2.1]; exact Or.inl hu))
+      have hlost : ∀ u ∈ memOnly s.ag (!crash), safeX (P s) (restarted b (memOnly s.ag (!crash))) [] u := by
+        intro u hu; right; right; right; rw [(hR _).2.2, List.mem_append]; exact Or.inr hu
+      have hcbd : ∀ c ∈ cbds s.ag [], c.id ≠ 0 → safeX (P s) (restarted b (memOnly s.ag (!crash))) [] c.sec := by
+        intro c hc hne
+        rcases h5 c hc hne with ⟨r, hr, he⟩ | hacc'
+        · rw [← h4 c hc r hr he hne]; exact hrec r hr
+        · exact hacc _ hacc'
+      rcases ht with ht | ht
+      · rcases ht with ht | ht
+        · simp at ht
+        · rw [mem_heldSecs] at ht
+          rcases ht with ⟨c, hc, rfl⟩ | ⟨f, hf, rfl⟩ | ⟨r, hr, rfl⟩
+          · by_cases hz : c.id = 0
+            · apply hlost; simp only [memOnly, List.mem_append, List.mem_map, List.mem_filter]
+              exact Or.inl ⟨c, ⟨hc, by simp [hz]⟩, rfl⟩
+            · exact hcbd c (by simp [mem_cbds, hc]) hz
+          · by_cases hz : f.cbd.id = 0
+            · by_cases hl : (f.cbd.id == 0 && (f.historic || !(!crash) || !s.ag.disk || !s.ag.diskOk)) = true
+              · apply hlost; simp only [memOnly, List.mem_append, List.mem_map, List.mem_filter]
+                exact Or.inr ⟨f, ⟨hf, hl⟩, rfl⟩
+              · have hq : f.historic = false ∧ crash = false ∧ s.ag.disk = true ∧ s.ag.diskOk = true := by
+                  cases hh : f.historic <;> cases crash <;> cases hd : s.ag.disk <;> cases ho : s.ag.diskOk <;> simp_all
+                obtain ⟨r, hr, hs⟩ := hbf.2.2.2 hq.2.1 f hf hq.1 hz hq.2.2.1 hq.2.2.2
+                left; right; rw [mem_heldSecs]; right; right
+                exact ⟨⟨r.sec, 0⟩, by rw [(hR _).1]; exact mem_resetIds hr, hs⟩
+            · exact hcbd f.cbd (by simp only [mem_cbds]; exact Or.inr (Or.inr ⟨f, hf, rfl⟩)) hz
+          · exact hrec r hr
+      · exact hacc t ht
+  · intro p hp; left
+    simp only [ridTags, parked, List.mem_append] at hp ⊢
+    rcases hp with ((hp | hp) | hp) | hp
+    · rw [readN_flights] at hp; simp [restarted] at hp
+    · exact Or.inl (Or.inl (Or.inr hp))
+    · refine Or.inl (Or.inr ?_); simp only [List.mem_map, List.mem_filter] at hp ⊢; obtain ⟨a, ha, rfl⟩ := hp; exact ⟨a, ha.1, rfl⟩
+    · exact Or.inr (parked_map_sub (fun g => aggSub_foldl _ g) hp)
+
+/-- every operation of the model preserves the invariant -/
+theorem sinv_step {s : State} (op : Op) (h : SInv s []) : SInv (step s op).1 [] := by
+  cases op with
+  | overflow t => exact sinv_overflow t h
+  | recent t => exact sinv_recent t h
+  | recv rid => exact sinv_recv rid h
+  | tick r now ok => exact sinv_tick r now ok h
+  | resp rid => exact sinv_resp rid h
+  | drop rid => exact sinv_drop rid h
+  | pop now => exact sinv_pop now h
+  | alive r b => exact sinv_alive r b h
+  | down r => exact sinv_down r h
+  | up r now => exact sinv_up r now h
+  | agentRestart c => exact sinv_agentRestart c h
+  | ballast k => exact sinv_ballast k h
+  | diskOk b => exact sinv_diskOk b h
+  | bad r => exact sinv_bad r h
+
+theorem sinv_init (disk saveFirst : Bool) (agentNow window shortWindow aggNow : Nat) :
+    SInv (init disk saveFirst agentNow window shortWindow aggNow) [] := by
+  have hnew : ∀ b ∈ (advance [] aggNow shortWindow).2, b.reqs = [] := by
+    intro b hb
+    rcases advance_mem (recent := []) (Or.inr hb) with h | h
+    · simp at h
+    · exact h
+  have hb : ∀ g ∈ (init disk saveFirst agentNow window shortWindow aggNow).aggs, ∀ b ∈ g.recent ++ g.historic, b.reqs = [] := by
+    intro g hg b hb
+    simp only [init, List.mem_map] at hg
+    obtain ⟨_, _, rfl⟩ := hg
+    exact hnew b (by simpa using hb)
+  have htags : ridTags (init disk saveFirst agentNow window shortWindow aggNow) = [] := by
+    have : parked (init disk saveFirst agentNow window shortWindow aggNow) = [] := by
+      simp only [parked, List.flatMap_eq_nil_iff]
+      intro g hg b hb'
+      exact hb g hg b hb'
+    simp only [ridTags, this]; simp [init, initAgent]
+  refine ⟨⟨?_, ?_, ?_, ?_, ?_, ?_⟩, ?_, ?_, ?_, ?_, ?_⟩
+  · simp [init, initAgent]
+  · simp [init, initAgent, cbds]
+  · simp [init, initAgent]
+  · simp [init, initAgent, cbds]
+  · simp [init, initAgent, cbds]
+  · simp [init, initAgent, cbds]
+  · rw [htags]; simp
+  · rw [htags]; simp
+  · simp [init]
+  · intro g hg b hb' p hp; rw [hb g hg b hb'] at hp; simp at hp
+  · simp [init]
+
+theorem sinv_run {s : State} (h : SInv s []) (ops : List Op) : SInv (run s ops) [] := by
+  induction ops generalizing s with
+  | nil => exact h
+  | cons o os ih => exact ih (sinv_step o h)
+
+theorem stepHistoricAttempt_flushed (s : State) (a : Agent) (c : Cbd) : (stepHistoricAttempt s a c).1.flushed = s.flushed := by
+  unfold stepHistoricAttempt; split <;> rfl
+
+theorem agentContinue_flushed (s : State) (f : Flight) (e d : Bool) : (agentContinue s f e d).1.flushed = s.flushed := by
+  unfold agentContinue
+  (repeat' split) <;> first | rfl | exact stepHistoricAttempt_flushed _ _ _
+
+theorem failFlights_flushed (fs : List Flight) (s : State) : (failFlights fs s).1.flushed = s.flushed := by
+  induction fs generalizing s with
+  | nil => rfl
+  | cons f fs ih =>
+    unfold failFlights
+    split
+    · exact ih s
+    · simp only; rw [ih, agentContinue_flushed]
+
+theorem recentSend_flushed (s : State) (a : Agent) (c : Cbd) (t : Nat) : (recentSend s a c t).1.flushed = s.flushed := by
+  unfold recentSend; (repeat' split) <;> rfl
+
+/-- the ghost list of flushed seconds only grows -/
+theorem flushed_step (s : State) (op : Op) : ∀ t ∈ s.flushed, t ∈ (step s op).1.flushed := by
+  intro t ht
+  cases op with
+  | overflow u => simp [step, addFlushed, ht]
+  | recent u =>
+    simp only [step, stepRecent]
+    split <;> (rw [recentSend_flushed]; simp [addFlushed, ht])
+  | recv rid =>
+    simp only [step, stepRecv]
+    split
+    · exact ht
+    · have hr : ∀ s' : State, s'.flushed = s.flushed → t ∈ (recvRefused s' rid).1.flushed := by
+        intro s' hs'; unfold recvRefused; split
+        · rw [hs']; exact ht
+        · simp only; rw [agentContinue_flushed, hs']; exact ht
+      split
+      · exact hr _ rfl
+      · split
+        · exact hr _ rfl
+        · unfold recvHandle; (repeat' split) <;> exact ht
+  | tick r now ok => simp only [step, stepTick]; (repeat' split) <;> exact ht
+  | resp rid => simp only [step, stepResp]; (repeat' split) <;> first | exact ht | (rw [agentContinue_flushed]; exact ht)
+  | drop rid => simp only [step, stepDrop]; (repeat' split) <;> first | exact ht | (rw [agentContinue_flushed]; exact ht)
+  | pop now => simp only [step, stepPop]; (repeat' split) <;> first | exact ht | (simp only; rw [stepHistoricAttempt_flushed]; exact ht)
+  | alive r b => exact ht
+  | down r => simp only [step, stepDown]; split <;> first | exact ht | (rw [failFlights_flushed]; exact ht)
+  | up r now => simp only [step, stepUp]; (repeat' split) <;> exact ht
+  | agentRestart c => simp only [step, stepAgentRestart]; exact ht
+  | ballast k => exact ht
+  | diskOk b => exact ht
+  | bad r => simp only [step, stepBad]; (repeat' split) <;> exact ht
+
 end SH.Delivery
